@@ -34,6 +34,13 @@
 
 #include "matrixsslImpl.h"
 
+#ifdef MATRIXSSL_VERIF
+/* Verification hook (off by default): lets a simulation harness turn this endpoint
+   into a misbehaving peer that omits a handshake message.  Returns non-zero if the
+   message of the given type is to be skipped. */
+extern int psVerifHsSkip(const ssl_t *ssl, int hsType);
+#endif
+
 #ifdef USE_TLS_1_3
 
 #define REC_HDR_LEN 5
@@ -768,6 +775,12 @@ int32_t tls13WriteEmptyExtension(ssl_t *ssl,
 
 static int32_t tls13WriteEncryptedExtensions(ssl_t *ssl, sslBuf_t *out)
 {
+#ifdef MATRIXSSL_VERIF
+    if (psVerifHsSkip(ssl, SSL_HS_ENCRYPTED_EXTENSION))
+    {
+        return MATRIXSSL_SUCCESS;
+    }
+#endif
     int32_t rc;
     psDynBuf_t eeBuf;
     unsigned char *eeData, *sniExt;
@@ -844,6 +857,12 @@ static int32_t tls13WriteEncryptedExtensions(ssl_t *ssl, sslBuf_t *out)
 
 static int32 tls13WriteCertificateRequest(ssl_t *ssl, sslBuf_t *out)
 {
+#ifdef MATRIXSSL_VERIF
+    if (psVerifHsSkip(ssl, SSL_HS_CERTIFICATE_REQUEST))
+    {
+        return MATRIXSSL_SUCCESS;
+    }
+#endif
     int32 rc;
     psDynBuf_t certRequestBuf, extBuf;
     unsigned char *certRequest, *ext;
@@ -950,6 +969,12 @@ out_internal_error:
 # ifdef USE_IDENTITY_CERTIFICATES
 static int32 tls13WriteCertificate(ssl_t *ssl, sslBuf_t *out)
 {
+#ifdef MATRIXSSL_VERIF
+    if (psVerifHsSkip(ssl, SSL_HS_CERTIFICATE))
+    {
+        return MATRIXSSL_SUCCESS;
+    }
+#endif
     int32 rc;
     psDynBuf_t certBuf, extBuf, certListBuf;
     unsigned char *certData, *certList;
@@ -1132,6 +1157,12 @@ static int32 tls13WriteCertificate(ssl_t *ssl, sslBuf_t *out)
 /* Should be good for both client and server? */
 static int32 tls13WriteCertificateVerify(ssl_t *ssl, sslBuf_t *out)
 {
+#ifdef MATRIXSSL_VERIF
+    if (psVerifHsSkip(ssl, SSL_HS_CERTIFICATE_VERIFY))
+    {
+        return MATRIXSSL_SUCCESS;
+    }
+#endif
     int32 rc;
     psDynBuf_t cvBuf;
     unsigned char *cvData;
